@@ -1,3 +1,113 @@
-From Thunder Require Import Batch.Model.
-Theorem placeholder : True. Proof. exact I. Qed.
-Print Assumptions placeholder.
+(* C05 - Batching: each caller gets its own result, each argument is fetched once.
+
+   Model: Batch/Model.v, a labelled transition system of batch.Func.Invoke with one label per atomic
+   section (first mutex section = LJoin; the creator's select = LWake with any cause, timers fire at any
+   time; second mutex section = LUnpublish; ctx.Err() test + safeInvoke = LRun with whatever Many did
+   (results of any length, error, panic) or LCancel; close(doneCh) = LDone; LReturn; LCtxCancel at any time).
+   [run (init ms) tr = Some s]: s is reached by the schedule tr with Func.MaxSize = ms.  A caller is
+   identified by the position of its Join in the schedule; a group's args are caller ids.  All statements
+   hold for every MaxSize, every schedule (hence every number of callers, arrival order, shard assignment,
+   timer behaviour, outcome of Many, cancellation point) and every state reached, without bound. *)
+From Coq Require Import List Arith.
+From Thunder Require Import Batch.Model Batch.Proofs.
+Import ListNotations.
+
+(* A caller that returned got, after its group was done, either the group's error or element [index] of
+   what Many returned for exactly the group's argument list, in which the caller sits at [index]. *)
+Theorem return_value : forall ms tr s ci cl r,
+  run (init ms) tr = Some s -> nth_error (callers s) ci = Some cl -> c_ret cl = Some r ->
+  exists g, nth_error (groups s) (c_gid cl) = Some g /\ g_done g = true /\
+            nth_error (g_args g) (c_index cl) = Some ci /\
+            ((exists e, g_err g = Some e /\ r = RErr e) \/
+             (g_err g = None /\ g_many g = Some (g_args g) /\
+              exists rs v, g_res g = Some rs /\ length rs = length (g_args g) /\
+                           nth_error rs (c_index cl) = Some v /\ r = RVal v)).
+Proof. exact return_value_lemma. Qed.
+Print Assumptions return_value.
+
+(* Every argument is in exactly one group, at its recorded index: the recorded slot holds the caller,
+   every slot of every group is the recorded slot of the caller it holds, and no caller occupies two slots. *)
+Theorem argument_in_exactly_one_group : forall ms tr s,
+  run (init ms) tr = Some s ->
+  (forall ci cl, nth_error (callers s) ci = Some cl ->
+     exists g, nth_error (groups s) (c_gid cl) = Some g /\ nth_error (g_args g) (c_index cl) = Some ci) /\
+  (forall gi g i ci, nth_error (groups s) gi = Some g -> nth_error (g_args g) i = Some ci ->
+     exists cl, nth_error (callers s) ci = Some cl /\ c_gid cl = gi /\ c_index cl = i) /\
+  (forall gi g i gj g2 j ci, nth_error (groups s) gi = Some g -> nth_error (g_args g) i = Some ci ->
+     nth_error (groups s) gj = Some g2 -> nth_error (g_args g2) j = Some ci -> gi = gj /\ i = j).
+Proof. exact args_placement_lemma. Qed.
+Print Assumptions argument_in_exactly_one_group.
+
+(* Many is called at most once per group in the whole schedule ([runs_of gi tr] counts the LRun labels of
+   group gi); exactly once iff the group ended in Ran, and then with exactly the group's final argument
+   list (nobody joined after the call); a group that is done without a call was cancelled (its creator's
+   context was cancelled and the group's error is the context error).  With the previous theorem: every
+   argument is passed to Many at most once, and exactly once unless its group was cancelled. *)
+Theorem many_called_once_unless_cancelled : forall ms tr s gi,
+  run (init ms) tr = Some s ->
+  runs_of gi tr <= 1 /\
+  (forall g, nth_error (groups s) gi = Some g ->
+     (runs_of gi tr = 1 <-> g_phase g = Ran) /\
+     (g_phase g = Ran -> g_many g = Some (g_args g)) /\
+     (g_done g = true -> runs_of gi tr = 0 -> g_phase g = Cancelled /\ g_ctxc g = true /\ g_err g = Some ECtx)).
+Proof. exact many_once_lemma. Qed.
+Print Assumptions many_called_once_unless_cancelled.
+
+(* A batch never exceeds MaxSize (when MaxSize > 0). *)
+Theorem batch_size_le_maxsize : forall ms tr s gi g,
+  run (init ms) tr = Some s -> nth_error (groups s) gi = Some g -> 0 < ms -> length (g_args g) <= ms.
+Proof. exact size_lemma. Qed.
+Print Assumptions batch_size_le_maxsize.
+
+(* A batch never mixes shards: every caller in a group has the group's shard. *)
+Theorem batch_shard_homogeneous : forall ms tr s gi g i ci,
+  run (init ms) tr = Some s -> nth_error (groups s) gi = Some g -> nth_error (g_args g) i = Some ci ->
+  exists cl, nth_error (callers s) ci = Some cl /\ c_shard cl = g_shard g.
+Proof. exact shard_lemma. Qed.
+Print Assumptions batch_shard_homogeneous.
+
+(* done is set on every path: from every reachable state every group's creator has enabled steps, at most
+   four and only its own, that lead to done, whatever Many does and whether or not the context is cancelled
+   ([rank] = number of creator steps left) ... *)
+Theorem done_reachable : forall ms tr s gi g,
+  run (init ms) tr = Some s -> nth_error (groups s) gi = Some g ->
+  exists tr' s' g', length tr' = rank g /\ length tr' <= 4 /\ (forall l, In l tr' -> label_group l = Some gi) /\
+                    run s tr' = Some s' /\ nth_error (groups s') gi = Some g' /\ g_done g' = true.
+Proof. exact done_reachable_lemma. Qed.
+Print Assumptions done_reachable.
+
+(* ... and once the group is done, the Return of every caller of it is enabled and yields the group's
+   value / error (every caller has a group). *)
+Theorem return_enabled_when_done : forall ms tr s ci cl,
+  run (init ms) tr = Some s -> nth_error (callers s) ci = Some cl -> c_ret cl = None ->
+  exists g, nth_error (groups s) (c_gid cl) = Some g /\
+    (g_done g = true ->
+     exists s' cl', step s (LReturn ci) = Some s' /\ nth_error (callers s') ci = Some cl' /\
+                    c_ret cl' = Some (ret_of g (c_index cl))).
+Proof. exact return_enabled_lemma. Qed.
+Print Assumptions return_enabled_when_done.
+
+(* ---- the hypotheses are satisfiable by non-trivial states ---- *)
+
+(* MaxSize 2, two shards: callers 0,1 fill group 0 (roll-over), caller 2 (shard 1) creates group 1, caller 3
+   creates group 2 on shard 0 while group 0 is still waiting; group 0 wakes by maxsize, runs, its callers get
+   their own results; group 1's creator is cancelled; caller 4 joins group 2 between its wake-up and its
+   unpublish; Many returns a short result for group 2. *)
+Example ex_trace : list label :=
+  [ LJoin 10 0 false; LJoin 11 0 false; LJoin 12 1 false; LJoin 13 0 false;
+    LWake 0 CMaxSize; LUnpublish 0; LRun 0 (ORes [100; 110]); LDone 0; LReturn 1; LReturn 0;
+    LCtxCancel 1; LWake 1 CCtxDone; LUnpublish 1; LCancel 1; LDone 1; LReturn 2;
+    LWake 2 CInterval; LJoin 14 0 false; LUnpublish 2; LRun 2 (ORes [130]); LDone 2; LReturn 3; LReturn 4 ].
+Example ex_reachable :
+  option_map (fun s => (map g_args (groups s), map c_ret (callers s), pending s)) (run (init 2) ex_trace)
+  = Some ([[0; 1]; [2]; [3; 4]],
+          [Some (RVal 100); Some (RVal 110); Some (RErr ECtx); Some (RErr EWrongLen); Some (RErr EWrongLen)], []).
+Proof. vm_compute. reflexivity. Qed.
+
+(* Many cannot run before the group is unpublished, nor twice, nor on a cancelled context *)
+Example ex_not_enabled :
+  run (init 0) [LJoin 1 0 false; LWake 0 CInterval; LRun 0 OErr] = None /\
+  run (init 0) [LJoin 1 0 false; LWake 0 CInterval; LUnpublish 0; LRun 0 OErr; LRun 0 OErr] = None /\
+  run (init 0) [LJoin 1 0 true; LWake 0 CCtxDone; LUnpublish 0; LRun 0 OErr] = None /\
+  run (init 0) [LJoin 1 0 false; LReturn 0] = None.
+Proof. vm_compute. repeat split; reflexivity. Qed.
